@@ -28,6 +28,57 @@ static void begin(uint64_t idx, const char *pfx)
     vh_case_begin(idx, pfx, d);
 }
 
+
+/* ---------------------------------------------------------------- foreign-object preconditioning
+   Before the object under test is keyed, ANOTHER object is keyed and used with a key RELATED to the one about to be used
+   (identical except for the last two bytes / one byte / one row; the same bytes through the other API flavour, length or
+   Mantis mode; the Mantis key whose decryption schedule has the same cells).  A correct library has no state outside the
+   caller's objects, so this can never matter; a process-wide memo of the last expansion whose match test forgets one field
+   (a row, the mode, the tweaked flag, the round count) is only reachable this way: random keys never repeat.
+   The key under test may be rewritten (before the model computes the expectation): fam 0/1 = skinny128/64, 2 = mantis. */
+static uint64_t be64(const uint8_t *p) { uint64_t v = 0; int i; for (i = 0; i < 8; ++i) v = (v << 8) | p[i]; return v; }
+static void put64(uint8_t *p, uint64_t v) { int i; for (i = 7; i >= 0; --i) { p[i] = (uint8_t)v; v >>= 8; } }
+static void foreign_use(vh_rng *r, int fam, uint8_t *key, unsigned klen, unsigned rounds, int dec)
+{
+    uint8_t f[48], blk[16] = {1, 2, 3}, out[16], big[256], bigo[256], tw[256]; unsigned bb = fam == 0 ? 16 : 8, what = (unsigned)vh_below(r, 8), i; int cap;
+    memcpy(f, key, klen); memset(big, 0x3C, sizeof(big)); memset(tw, 0x5A, sizeof(tw));
+    switch (what) {
+    case 0: break;                                                          /* the same key */
+    case 1: f[klen - 1] ^= (uint8_t)(1 + vh_below(r, 255)); f[klen - 2] ^= (uint8_t)vh_below(r, 256); break;
+    case 2: f[vh_below(r, klen)] ^= (uint8_t)(1 + vh_below(r, 255)); break;
+    case 3: { unsigned row = (unsigned)vh_below(r, klen / 8); vh_rand_bytes(r, f + 8 * row, 8); } break;
+    case 4: if (fam != 2 && klen > bb) memset(key, 0, bb); break;            /* TK1 of the key under test is zero, like the implicit tweak of a tweaked set-up */
+    case 5: if (fam != 2 && klen > bb) memset(key + klen - bb, 0, bb); break; /* last row zero, like a shorter key zero-padded */
+    case 6: if (fam == 2) { uint64_t k0 = be64(f), k1 = be64(f + 8); put64(key, ((k0 >> 1) | (k0 << 63)) ^ (k0 >> 63)); put64(key + 8, k1 ^ 0x243f6a8885a308d3ULL); } break;   /* test key = cells of f's opposite-mode schedule */
+    default: vh_related(r, f, key, klen); break;
+    }
+    VH_COUNT("foreign_object_preconditionings", 1);
+    if (fam == 2) {
+        MantisKey_t m; vh_handle h; unsigned fr = vh_below(r, 2) ? rounds : 8; int fmode = (what == 6) ? (dec ? MANTIS_ENCRYPT : MANTIS_DECRYPT) : (vh_below(r, 2) ? MANTIS_ENCRYPT : MANTIS_DECRYPT);
+        mantis_set_key(&m, f, 16, fr, fmode); mantis_ecb_crypt(out, blk, &m);
+        for (cap = 0; cap < 3; ++cap) { memset(&h, 0, sizeof(h)); vh_set_cap(cap); if (vh_ciphers[CIPH_MANTIS].par_init(&h)) { vh_ciphers[CIPH_MANTIS].par_set_key(&h, f, 16, fr, fmode); vh_ciphers[CIPH_MANTIS].par_encrypt(bigo, big, tw, 192, &h); vh_ciphers[CIPH_MANTIS].par_cleanup(&h); } }
+        vh_set_cap(2);
+        return;
+    }
+    { vh_handle h; const vh_cipher *c = &vh_ciphers[fam == 0 ? CIPH_S128 : CIPH_S64];
+      for (cap = 0; cap < 3; ++cap) { memset(&h, 0, sizeof(h)); vh_set_cap(cap); if (c->par_init(&h)) { c->par_set_key(&h, f, klen, 0, 0); c->par_encrypt(bigo, big, NULL, 256, &h); c->par_cleanup(&h); } }
+      vh_set_cap(2); }
+    for (i = 0; i < 2; ++i) {
+        unsigned flavour = (unsigned)vh_below(r, 4), fl = klen;
+        if (i == 1 && what == 4) flavour = 2;                                 /* the last foreign set-up is the tweaked one with its implicit zero tweak */
+        if (flavour == 1 && klen > bb) fl = klen - bb; else if (flavour == 1) fl = klen + bb;      /* neighbouring primary length, same prefix */
+        if (fam == 0) {
+            Skinny128Key_t k; Skinny128TweakedKey_t t;
+            if (flavour >= 2 && klen > bb && klen - bb >= 16) { skinny128_set_tweaked_key(&t, (what == 4) ? f + bb : f, (what == 4) ? klen - bb : (klen - bb)); if (flavour == 3 && what != 4) skinny128_set_tweak(&t, f, 16); skinny128_ecb_encrypt(out, blk, &t.ks); }
+            else { if (fl > 48) fl = 48; skinny128_set_key(&k, f, fl); skinny128_ecb_encrypt(out, blk, &k); }
+        } else {
+            Skinny64Key_t k; Skinny64TweakedKey_t t;
+            if (flavour >= 2 && klen > bb) { skinny64_set_tweaked_key(&t, (what == 4) ? f + bb : f, klen - bb); if (flavour == 3 && what != 4) skinny64_set_tweak(&t, f, 8); skinny64_ecb_encrypt(out, blk, &t.ks); }
+            else { if (fl > 24) fl = 24; skinny64_set_key(&k, f, fl); skinny64_ecb_encrypt(out, blk, &k); }
+        }
+    }
+}
+
 /* ---------------------------------------------------------------- C01 */
 static const struct { const char *name; unsigned bb, klen; } SKV[6] = {
     {"skinny64-64", 8, 8}, {"skinny64-128", 8, 16}, {"skinny64-192", 8, 24},
@@ -100,6 +151,7 @@ static void c01_case(uint64_t idx)
     } else {
         kind = "random";
         vh_rand_bytes(&r, key, klen); vh_rand_bytes(&r, in, bb);
+        if (k & 1) { kind = "random-after-foreign-object"; foreign_use(&r, bb == 16 ? 0 : 1, key, klen, 0, (int)dec); }
     }
     {
         uint64_t h = vh_hash(key, klen, vh_hash(in, bb, VH_HASH_INIT + v * 2 + dec));
@@ -167,6 +219,7 @@ static void c02_case(uint64_t idx)
         use_stored = 1;
         if (k & 4) { vh_rand_bytes(&r, stored, 8); vh_related(&r, tweak, stored, 8); } else vh_related(&r, stored, tweak, 8);
     }
+    if (k >= 720 && (k & 8)) { kind = "random-after-foreign-object"; foreign_use(&r, 2, key, 16, rounds, (int)dec); }
     if (entry >= 2) eff_tweak = zero;
     if (vh_distinct(vh_hash(key, 16, vh_hash(eff_tweak, 8, vh_hash(in, 8, VH_HASH_INIT + (idx % 32)))))) VH_COUNT("distinct_nontrivial_inputs", 1);
     if (dec) ref_mantis_decrypt(rounds, key, eff_tweak, in, exp_); else ref_mantis_encrypt(rounds, key, eff_tweak, in, exp_);
@@ -310,6 +363,7 @@ static void c03_parallel(uint64_t idx, vh_rng *r)
         uint8_t *x = vh_gback(1, bytes, -1), *y = vh_gback(2, bytes, -1), *z = vh_gback(3, bytes, -1), *tw = vh_gback(4, bytes, -1);
         memcpy(x, PB[0], bytes); vh_rand_bytes(r, tw, bytes);
         memset(&h, 0, sizeof(h));
+        if (vh_below(r, 2)) { uint8_t kc[48]; memcpy(kc, key, klen); foreign_use(r, c->id == CIPH_S128 ? 0 : c->id == CIPH_S64 ? 1 : 2, kc, klen, rounds, order); }   /* another object used with a related key just before (the key under test itself is not rewritten here) */
         vh_set_cap(be);
         snprintf(k_, sizeof(k_), "C03:%s-parallel:%s", c->name, vh_backend_names[be]);
         vh_set_crash_key(k_);
